@@ -21,6 +21,9 @@ EXTRA_TARGETS = ["drv_c17"]
 FMTS = ["8m", "8", "16", "32"]
 DIMS = [1, 2, 3, 4, 5, 6, 7, 8, 9, 10, 11, 12, 13, 16, 17, 19, 20, 23, 24, 29, 31, 32, 37, 41, 43, 47,
         49, 53, 59, 61, 64, 98, 103, 107]
+# sizes with common divisors (factors dividing both dimensions) and rounding-sensitive widths
+NICE = [(16, 8), (32, 16), (24, 12), (64, 32), (98, 4), (49, 7), (12, 9), (20, 10), (30, 20), (60, 40),
+        (36, 24), (48, 36), (98, 14), (103, 2), (107, 3), (40, 30), (18, 12), (27, 9), (56, 42), (100, 25)]
 
 
 # ------------------------------------------------------------------ finding predicates (fallback)
@@ -51,10 +54,12 @@ class Gen:
         self.rng = rng
         self.lines = []
         r = rng.random()
-        if r < 0.15:
+        if r < 0.10:
             self.W, self.H = 1, rng.choice(DIMS)
-        elif r < 0.25:
+        elif r < 0.18:
             self.W, self.H = rng.choice(DIMS), 1
+        elif r < 0.45:
+            self.W, self.H = rng.choice(NICE)
         else:
             while True:
                 self.W = rng.choice(DIMS) if rng.random() < 0.8 else rng.randint(1, 110)
@@ -83,19 +88,24 @@ class Gen:
     def factor(self):
         rng, W, H = self.rng, self.W, self.H
         r = rng.random()
-        if r < 0.35:
+        if r < 0.30:
             return rng.randint(1, 4)
-        if r < 0.50:
+        if r < 0.55:
+            ds = [d for d in range(2, min(255, min(W, H)) + 1) if W % d == 0 and H % d == 0]
+            if ds:
+                return rng.choice(ds)
             ds = [d for d in range(1, min(255, max(W, H)) + 1) if W % d == 0 or H % d == 0]
             return rng.choice(ds)
-        if r < 0.68:
-            return max(0, min(255, rng.choice([W, H, W + 1, H + 1, W - 1, H - 1, W // 2, H // 2, W // 2 + 1])))
-        if r < 0.72:
+        if r < 0.67:
+            # reduce a dimension to 1 (n = W or H, or just below) / to 0 (just above)
+            return max(0, min(255, rng.choice([min(W, H), min(W, H), max(W, H), min(W, H) + 1,
+                                               max(W, H) + 1, min(W, H) - 1, min(W, H) // 2, min(W, H) // 2 + 1])))
+        if r < 0.70:
             return 255
-        if r < 0.75:
+        if r < 0.73:
             return 0
-        if r < 0.88:
-            return rng.randint(1, max(1, min(255, max(W, H) + 2)))
+        if r < 0.90:
+            return rng.randint(1, max(1, min(255, min(W, H))))
         return rng.randint(1, 255)
 
     def full_req(self, i, inc):
@@ -431,11 +441,12 @@ def run(ctx):
         sc = "\n".join(rec.get("script", [])) + "\n"
         scripts.append(("replay", sc, script_flags(sc)))
     else:
-        for f in sorted(glob.glob(os.path.join(common.VERIF, "corpus", "C17", "*.ops"))):
+        corpus = [] if os.environ.get("C17_NO_CORPUS") else sorted(glob.glob(os.path.join(common.VERIF, "corpus", "C17", "*.ops")))
+        for f in corpus:   # (C17_NO_CORPUS=1 is for judging the generator alone when trying mutations)
             sc = open(f).read()
             scripts.append(("corpus:" + os.path.basename(f), sc, script_flags(sc)))
         scripts.append(("relation", relation_script(ctx.rng, ctx.tier), set()))
-        n = 260 if ctx.tier == "quick" else 2600
+        n = 200 if ctx.tier == "quick" else 2400
         maxarea = 2600 if ctx.tier == "quick" else 4200
         drafts = []
         for k in range(n):
@@ -518,18 +529,18 @@ def run(ctx):
                 "pixel by pixel with the reference box filter)",
         "samples": samples, "distribution": dist, "failures": fails,
         "partial": [
-            "IEEE-754 assumption for rfbScaledCorrection: the C double expressions are evaluated as binary64 with "
-            "round-to-nearest-even and no contraction/excess precision, so that they equal the software-float model "
-            "(Scale.corrRaw); validated on every run (corrsum exhaustive 1-D <= 30/44, corrrnd random 16-bit operands)",
-            "corrRaw_rel (the software-float result satisfies the relational bounds CorrRel used by the theorems) is "
-            "checked by evaluation, not proved for all 16-bit operands",
+            "IEEE-754 assumption for rfbScaledCorrection (the only unproved link): the C double expressions are "
+            "evaluated as binary64 with round-to-nearest-even and no contraction/excess precision, i.e. equal the "
+            "software-float model Scale.corrRaw; validated on every run (corrsum exhaustive 1-D <= 30/44, corrrnd "
+            "random 16-bit operands, random 2-D corr lines). The arithmetic half (corrRaw satisfies the relational "
+            "bounds CorrRel for all 16-bit operands) is proved: corrRaw_sound",
             "CopyRect under scaling is not modelled (approximate in the code); clients in the run do not use CopyRect",
             "region decomposition (which rectangles an update consists of) is predicted only when the region is a "
             "single rectangle; otherwise only the picture after the update is compared",
         ],
         "assumptions": [
-            "model = code with fixes/C17-*.diff applied (ScaleX/ScaleY integer arithmetic, zero width refused, "
-            "per-pixel block origin in rfbScaledScreenUpdateRect)",
+            "model = code with the three C17 fixes (in /repo since 916387d, b3494ad, d7beb2f): ScaleX/ScaleY integer "
+            "arithmetic, zero width refused, per-pixel block origin in rfbScaledScreenUpdateRect",
             "single-threaded application-driven event loop; clients use the server pixel format and Raw encoding",
             "framebuffer stride = width*bytesPerPixel (rfbGetScreen default)",
         ],
@@ -548,7 +559,8 @@ META = {
                   "refcount conservation for every join/change/leave sequence, factor-1 identity. Tied to the code "
                   "on every run by an exact differential run plus a direct oracle.",
     "level_note": "Trusted: Lean kernel; harness/driver/generator (testing); IEEE-754 evaluation of the double "
-                  "expressions in rfbScaledCorrection (validated every run). The unchanged tree violates the property "
-                  "(three defects, witnesses in corpus/C17, fixes in fixes/C17-*.diff); the model follows the fixed code.",
+                  "expressions in rfbScaledCorrection (validated every run; the error analysis itself is the theorem "
+                  "corrRaw_sound). Three defects of the original tree were found and fixed (witnesses in corpus/C17, "
+                  "fixes/C17-*.diff, /repo commits 916387d b3494ad d7beb2f); the model follows the fixed code.",
     "design_ref": "DESIGN.md section 7, C17; section 11 (m)",
 }
